@@ -151,8 +151,51 @@ func genClientFields(r *core.Rand, gate bool, id string) ([]rig.Field, string) {
 	if r.Chance(30) {
 		fs = append(fs, rig.Field{Name: "X-Custom", Value: "v"})
 	}
+	// a protocol upgrade (Upgrade + Connection: Upgrade, token lists in every spelling) whose Connection field
+	// nominates further names: Proxy-Authorization, Authorization, Proxy-Connection, Keep-Alive, TE, the standard
+	// hop-by-hop set, custom names; the nominated fields are present (several values, odd spellings)
+	upgrade := r.Chance(30)
+	if upgrade {
+		lines, tokens := reqmodel.GenUpgradeNominating(r, id, fs)
+		if r.Chance(35) && !hasTokenFold(tokens, "Proxy-Authorization") {
+			tokens = append(tokens, core.Pick(r, []string{"Proxy-Authorization", "proxy-authorization", "PROXY-AUTHORIZATION"}))
+		}
+		fs = append(fs, lines...)
+		fs = append(fs, reqmodel.ConnectionLines(r, tokens)...)
+		labels = append(labels, "upgrade-nominating")
+		for _, n := range []string{"Proxy-Authorization", "Authorization"} {
+			if hasTokenFold(tokens, n) {
+				labels = append(labels, "upgrade-nominates-"+strings.ToLower(n))
+			}
+		}
+	}
 	core.Shuffle(r, fs)
+	if upgrade && gate {
+		// the credential this proxy checks is the FIRST Proxy-Authorization line
+		firstPA := -1
+		for i, f := range fs {
+			if !strings.EqualFold(f.Name, name) {
+				continue
+			}
+			if firstPA < 0 {
+				firstPA = i
+			}
+			if f.Value == first {
+				fs[firstPA].Value, fs[i].Value = fs[i].Value, fs[firstPA].Value
+				break
+			}
+		}
+	}
 	return fs, strings.Join(labels, ",")
+}
+
+func hasTokenFold(tokens []string, name string) bool {
+	for _, t := range tokens {
+		if strings.EqualFold(strings.TrimSpace(t), name) {
+			return true
+		}
+	}
+	return false
 }
 
 func genCase(r *core.Rand) *ccase {
